@@ -26,6 +26,7 @@ import (
 	"sort"
 	"strconv"
 	"strings"
+	"sync"
 	"sync/atomic"
 	"testing"
 	"time"
@@ -737,6 +738,7 @@ func TestC19(t *testing.T) {
 		}
 	}
 	R.Part("cases", "dns-ttl", 10)
+	c19DNSTTLForever(R, t.TempDir())
 
 	// ---- -resolvers --------------------------------------------------------------------------------
 	type rtext struct {
@@ -931,4 +933,51 @@ func c19ConnectToEndToEnd(R *ev.Run, dir string) {
 		}
 	}
 	R.Part("cases", "connect-to:end-to-end", cases)
+}
+
+// c19DNSTTLForever: "-dns-ttl 0 = cache forever" end to end. The system resolver is replaced by one that counts
+// every exchange it is asked to open (and fails it; the cache keeps failed lookups like successful ones). A long
+// attack (30 hits over 600 ms, no keep-alive) must cause exactly as many exchanges as a short one (1 hit): one
+// lookup. -dns-ttl -1 (no caching) must look the name up for every hit.
+func c19DNSTTLForever(R *ev.Run, dir string) {
+	var mu sync.Mutex
+	exchanges := 0
+	saved := net.DefaultResolver
+	defer func() { net.DefaultResolver = saved }()
+	net.DefaultResolver = &net.Resolver{PreferGo: true, Dial: func(ctx context.Context, network, address string) (net.Conn, error) {
+		mu.Lock()
+		exchanges++
+		mu.Unlock()
+		return nil, fmt.Errorf("c19: no DNS here")
+	}}
+	tf, of := filepath.Join(dir, "dns-targets"), filepath.Join(dir, "dns-out")
+	os.WriteFile(tf, []byte("GET http://c19dns.invalid:8080/\n"), 0o644)
+	run := func(ttl, rate, duration string) int {
+		mu.Lock()
+		exchanges = 0
+		mu.Unlock()
+		args := []string{"-targets", tf, "-output", of, "-rate", rate, "-duration", duration, "-keepalive=false", "-timeout", "5s", "-dns-ttl", ttl}
+		if err := attackCmd().fn(args); err != nil {
+			return -1
+		}
+		mu.Lock()
+		defer mu.Unlock()
+		return exchanges
+	}
+	short := run("0", "20/s", "50ms")
+	long := run("0", "50/s", "600ms")
+	none := run("-1", "50/s", "200ms")
+	R.Eval(3)
+	R.Trans(3)
+	R.Distinct("dns-ttl-end-to-end")
+	ctx := map[string]any{"exchanges_one_hit_ttl_0": short, "exchanges_30_hits_over_600ms_ttl_0": long, "exchanges_10_hits_ttl_-1": none}
+	switch {
+	case short <= 0 || long <= 0 || none <= 0:
+		R.Assume(fmt.Sprintf("dns-ttl end to end not judged: the counting resolver saw %v", ctx))
+	case long != short:
+		R.Violation("dns-ttl:0-is-not-forever:lookups-repeat-during-the-attack", ctx)
+	case none <= short:
+		R.Violation("dns-ttl:-1-still-caches", ctx)
+	}
+	R.Part("cases", "dns-ttl:end-to-end", 3)
 }
